@@ -3,6 +3,16 @@
 import json, sys
 ALL = [f"C{i:02d}" for i in range(1, 21)]
 CLAIMED = {
+ "C10": dict(
+   technique="grammar-directed generation + token-level mutation of the corpus + raw token/byte soup (proptest, choice tapes); totality and location-validity predicate; subprocess agreement with the real CLI",
+   text="Exploration. Generated syntactically valid but ill-formed terms over every grammar production (extreme literals, arbitrary metadata), token mutations of every repository source and raw token/byte soup are pushed through parse, directives, desugar, resolve, check and diagnostic rendering; every case must return a verdict or an error value without unwinding, and every location mentioned must lie in its file. Shrunk earlier findings are replayed first. Bounded nesting depth; absence of panics beyond the explored inputs is not established.",
+   note="trusted base: harness drivers replicate cli/src/diagnostics.rs rendering into buffers (plus a sample through the real binary); proptest; rustc",
+   ref="§3 C10"),
+ "C11": dict(
+   technique="mutation-based generation (lexical irregularities at token gaps, exhaustive on small bases) against an independent maximal-munch scanner as extent oracle",
+   text="Exploration. Every repository source and 30 grammar snippets receive 0-2 of 33 lexical irregularities at token gaps (exhaustively for the snippets); whenever the parser accepts, the root term's span must equal the extent of all non-comment tokens computed by an independent scanner written from the token definitions.",
+   note="trusted base: S-scan (harness/src/scan.rs) as specification of the lexical grammar; an unterminated `/-` comments out the rest of the file",
+   ref="§3 C11"),
  "C08": dict(
    technique="exhaustive enumeration + proptest random generation against a transitive-closure SCC oracle; permutation metamorphic testing of generated blocks",
    text="Exploration. The public graph API is decided on every digraph with at most 4 nodes (self-loops included; exhaustive) and on random digraphs with 5-12 nodes under several labelings and release disciplines, against SCCs computed by transitive closure; at the language level generated begin-blocks are printed in many permutations and must keep verdict and behaviour. Absence beyond the explored sizes is not established.",
